@@ -529,6 +529,12 @@ func initializeAliasToIndexMap() error {
 		return err
 	}
 
+	// alias files of the default org are stored directly in VTableAliasesDir
+	err = loadAliasFilesForOrg(dirs, 0)
+	if err != nil {
+		return err
+	}
+
 	for _, dir := range dirs {
 		if dir.IsDir() {
 			orgid := dir.Name()
@@ -538,23 +544,32 @@ func initializeAliasToIndexMap() error {
 				log.Errorf("initializeAliasToIndexMap: Failed to read directory=%v, for org =%v, err=%v", VTableAliasesDir+dir.Name(), orgid, err)
 				return err
 			}
-			for _, f := range files {
-				var sb strings.Builder
-				sb.WriteString(VTableAliasesDir)
-				fname := f.Name()
+			err = loadAliasFilesForOrg(files, orgIdNumber)
+			if err != nil {
+				return err
+			}
+		}
+	}
+	return nil
+}
 
-				if strings.HasSuffix(fname, ".json") {
-					indexName := strings.TrimSuffix(fname, ".json")
-					aliasNames, err := GetAliases(indexName, orgIdNumber)
-					if err != nil {
-						log.Errorf("initializeAliasToIndexMap: For indexName=%v, Failed to getAllAliasInIndexFile fname=%v, err=%v", indexName, fname, err)
-						return err
-					}
+func loadAliasFilesForOrg(files []os.DirEntry, orgid int64) error {
+	for _, f := range files {
+		if f.IsDir() {
+			continue
+		}
+		fname := f.Name()
 
-					for aliasName := range aliasNames {
-						putAliasToIndexInMem(aliasName, indexName, orgIdNumber)
-					}
-				}
+		if strings.HasSuffix(fname, ".json") {
+			indexName := strings.TrimSuffix(fname, ".json")
+			aliasNames, err := GetAliases(indexName, orgid)
+			if err != nil {
+				log.Errorf("loadAliasFilesForOrg: For indexName=%v, Failed to getAllAliasInIndexFile fname=%v, err=%v", indexName, fname, err)
+				return err
+			}
+
+			for aliasName := range aliasNames {
+				putAliasToIndexInMem(aliasName, indexName, orgid)
 			}
 		}
 	}
